@@ -15,6 +15,7 @@ func init() {
 	verifHarnesses["VerifC18Pent3x3Centre"] = VerifC18Pent3x3Centre
 	verifHarnesses["VerifC04Tri2x2"] = VerifC04Tri2x2
 	verifHarnesses["VerifC04Quad2x2Half"] = VerifC04Quad2x2Half
+	verifHarnesses["VerifC04ShellWithHole"] = VerifC04ShellWithHole
 }
 
 // verifValidRing: a simple ring given counter-clockwise or clockwise (both occur).
@@ -173,53 +174,61 @@ func verifC04Body(n, wx, wy, W, mode, idsel int) {
 	ring, L := verifValidRing(n, wx, wy, W, mode)
 	ids := verifIDs(idsel)
 	for _, cfg := range verifCfgs() {
-		verifC04One(ring, L, ids, cfg, wx, wy, W)
+		res, panicked := verifSnapCatch(geom.Polygon{ring}, verifSyntheticTMS(2), ids, cfg)
+		verifAssert(!panicked, "C04.O0.no-panic")
+		if panicked {
+			continue
+		}
+		verifC04Check(res, ids, [][]verifPt{L}, nil)
 	}
 }
 
-func verifC04One(ring [][2]float64, L []verifPt, ids []tms20.TMID, cfg Config, wx, wy, W int) {
-	res, panicked := verifSnapCatch(geom.Polygon{ring}, verifSyntheticTMS(2), ids, cfg)
-	verifAssert(!panicked, "C04.O0.no-panic")
-	if panicked {
-		return
-	}
-	// a symbolic probe location on the lattice, anywhere in the window plus a margin of two pixels
-	tag := "k0"
-	if cfg.KeepPointsAndLines {
-		tag = "k1"
-	}
-	if cfg.ReverseWindingOrder {
-		tag += "r1"
-	}
-	lx := verifNondetInt("probe.x."+tag, int64(wx-2)*verifSub, int64(wx+W+2)*verifSub)
-	ly := verifNondetInt("probe.y."+tag, int64(wy-2)*verifSub, int64(wy+W+2)*verifSub)
-	probe := verifPt{lx, ly}
+// verifC04Check: O-1 vertex provenance, O-2 every output edge within half a pixel of one input edge, and (when probes
+// are given) O-3 coverage agreement at every probe location farther than one pixel from the input boundary.
+func verifC04Check(res map[tms20.TMID][]geom.Polygon, ids []tms20.TMID, L [][]verifPt, probes []verifPt) {
 	for _, id := range ids {
 		s := verifPixelSize(id)
 		verifCover("checked")
-		// O-1: every output vertex is the centre of the pixel of some input vertex
+		if len(res[id]) > 0 {
+			verifCover("has-geometry")
+		}
+		// exactly routed boundary of every input ring at this tile matrix (computed once)
+		hot := verifHotPixels(L, id)
+		var routed [][]verifPt
+		for _, ring := range L {
+			routed = append(routed, verifRoutedRing(ring, hot, id))
+		}
 		for _, p := range res[id] {
 			for _, r := range p {
 				lr := verifLatticeRing(r)
 				for _, c := range lr {
 					found := false
-					for _, v := range L {
-						if verifIsCentreOf(c, v, id) {
-							found = true
+					for _, ring := range L {
+						for _, v := range ring {
+							if verifIsCentreOf(c, v, id) {
+								found = true
+							}
 						}
 					}
 					verifAssert(found, "C04.O1.vertex-is-centre-of-an-input-vertex-pixel")
 				}
-				// O-2: both ends of every output edge within half a pixel (Chebyshev) of one input edge
 				if len(lr) >= 2 {
 					for i := range lr {
 						a, b := lr[i], lr[(i+1)%len(lr)]
+						// an edge between two centres the exact routing of one input edge passes consecutively (or a
+						// straight run of such) is within half a pixel of that input edge by convexity
+						if verifEdgeIsRouted(a, b, routed) {
+							continue
+						}
+						verifCover("edge-not-routed-geometric-test")
 						near := false
-						for k := range L {
-							p0, p1 := L[k], L[(k+1)%len(L)]
-							if verifMeetsClosed(p0, p1, a[0]-s/2, a[1]-s/2, a[0]+s/2, a[1]+s/2) &&
-								verifMeetsClosed(p0, p1, b[0]-s/2, b[1]-s/2, b[0]+s/2, b[1]+s/2) {
-								near = true
+						for _, ring := range L {
+							for k := range ring {
+								p0, p1 := ring[k], ring[(k+1)%len(ring)]
+								if verifMeetsClosed(p0, p1, a[0]-s/2, a[1]-s/2, a[0]+s/2, a[1]+s/2) &&
+									verifMeetsClosed(p0, p1, b[0]-s/2, b[1]-s/2, b[0]+s/2, b[1]+s/2) {
+									near = true
+								}
 							}
 						}
 						verifAssert(near, "C04.O2.edge-within-half-pixel-of-an-input-edge")
@@ -227,31 +236,70 @@ func verifC04One(ring [][2]float64, L []verifPt, ids []tms20.TMID, cfg Config, w
 				}
 			}
 		}
-		// O-3: coverage agrees wherever the probe is farther than one pixel from the input boundary
-		far := true
-		for k := range L {
-			if verifMeetsClosed(L[k], L[(k+1)%len(L)], lx-s, ly-s, lx+s, ly+s) {
-				far = false
-			}
-		}
-		inIn, _ := verifPointInRing(L, probe)
-		inOut := false
-		for _, p := range res[id] {
-			for _, r := range p {
-				lr := verifLatticeRing(r)
-				if len(lr) < 3 {
-					continue
+		for _, probe := range probes {
+			far := true
+			for _, ring := range L {
+				for k := range ring {
+					if verifMeetsClosed(ring[k], ring[(k+1)%len(ring)], probe[0]-s, probe[1]-s, probe[0]+s, probe[1]+s) {
+						far = false
+					}
 				}
-				in, _ := verifPointInRing(lr, probe)
+			}
+			inIn := false
+			for _, ring := range L {
+				in, _ := verifPointInRing(ring, probe)
 				if in {
-					inOut = !inOut
+					inIn = !inIn
 				}
 			}
+			inOut := false
+			for _, p := range res[id] {
+				for _, r := range p {
+					lr := verifLatticeRing(r)
+					if len(lr) < 3 {
+						continue
+					}
+					in, _ := verifPointInRing(lr, probe)
+					if in {
+						inOut = !inOut
+					}
+				}
+			}
+			verifAssert(!far || inIn == inOut, "C04.O3.coverage-agrees-away-from-boundary")
 		}
-		if len(res[id]) > 0 {
-			verifCover("has-geometry")
+	}
+}
+
+// verifEdgeIsRouted: a->b is an edge (or straight run) of the exactly routed boundary of one of the input rings.
+func verifEdgeIsRouted(a, b verifPt, routed [][]verifPt) bool {
+	for _, rr := range routed {
+		if len(rr) >= 2 && verifIsRoutedEdgeOrRun(a, b, rr) {
+			return true
 		}
-		verifAssert(!far || inIn == inOut, "C04.O3.coverage-agrees-away-from-boundary")
+	}
+	return false
+}
+
+// template: a fixed square shell [4,12]^2 with a valid triangular hole in the 2x2 window (7..8)^2 (sub-pixel
+// positions {1/4,3/4}); probes on the 49 pixel centres of [5,12)^2.
+func VerifC04ShellWithHole() {
+	shellL := []verifPt{{4 * verifSub, 4 * verifSub}, {12 * verifSub, 4 * verifSub}, {12 * verifSub, 12 * verifSub}, {4 * verifSub, 12 * verifSub}}
+	hole, holeL := verifValidRing(3, 7, 7, 2, verifHalf)
+	poly := geom.Polygon{verifRingOf(shellL), hole}
+	var probes []verifPt
+	for x := int64(5); x <= 11; x++ {
+		for y := int64(5); y <= 11; y++ {
+			probes = append(probes, verifPt{x*verifSub + verifSub/2, y*verifSub + verifSub/2})
+		}
+	}
+	ids := []tms20.TMID{0, 1}
+	for _, cfg := range []Config{{}, {KeepPointsAndLines: true, ReverseWindingOrder: true}} {
+		res, panicked := verifSnapCatch(poly, verifSyntheticTMS(2), ids, cfg)
+		verifAssert(!panicked, "C04.O0.no-panic")
+		if panicked {
+			continue
+		}
+		verifC04Check(res, ids, [][]verifPt{shellL, holeL}, probes)
 	}
 }
 
